@@ -215,6 +215,16 @@ pub struct Case {
     thread: bool,
     spans: Vec<SpanSpec>,
     events: Vec<EventSpec>,
+    /// with_thread_names as well
+    #[serde(default)]
+    pub names: bool,
+    /// the whole case runs on a thread without a name
+    #[serde(default)]
+    pub unnamed: bool,
+    /// after the chain is built: two threads record fields `.1` and `.2` of span `.0` at the same
+    /// instant (values whose Debug impl is slow); every later output has to show both
+    #[serde(default)]
+    pub concurrent: Option<(u8, u8, u8, i64, i64)>,
 }
 
 #[derive(Clone)]
@@ -256,9 +266,24 @@ fn with_values<R>(meta: &'static Metadata<'static>, vals: &[Option<Owned>], f: i
 }
 
 fn run_case(case: &Case) -> Outcome {
+    // the formatter's thread name / id keys depend on whether the emitting thread has a name
+    let b = std::thread::Builder::new();
+    let b = if case.unnamed { b } else { b.name("vp-c14".into()) };
+    std::thread::scope(|sc| b.spawn_scoped(sc, || run_case_inner(case)).expect("thread").join()).unwrap_or_else(|p| Outcome::fail("panic while formatting", format!("{:?}", p.downcast_ref::<String>())))
+}
+
+struct SlowDbg(i64);
+impl std::fmt::Debug for SlowDbg {
+    fn fmt(&self, f: &mut std::fmt::Formatter<'_>) -> std::fmt::Result {
+        std::thread::sleep(std::time::Duration::from_millis(2));
+        write!(f, "slow{}", self.0)
+    }
+}
+
+fn run_case_inner(case: &Case) -> Outcome {
     let f10_open = kf::load("C14").iter().any(|f| f.id == "F10" && f.status == "open");
     let out = Out(Default::default());
-    let layer = fmt::subscriber().json().without_time().with_writer(out.clone()).flatten_event(case.flatten).with_current_span(case.current_span).with_span_list(case.span_list).with_target(case.target).with_level(case.level).with_thread_ids(case.thread).with_thread_names(case.thread);
+    let layer = fmt::subscriber().json().without_time().with_writer(out.clone()).flatten_event(case.flatten).with_current_span(case.current_span).with_span_list(case.span_list).with_target(case.target).with_level(case.level).with_thread_ids(case.thread).with_thread_names(case.names);
     let d = Dispatch::new(Registry::default().with(layer));
     let _g = tracing_core::dispatch::set_default(&d);
     let span_metas = [&METAS[0], &METAS[1], &METAS[2]];
@@ -314,6 +339,30 @@ fn run_case(case: &Case) -> Outcome {
     }
 
     let fail = |sig: &str, detail: String, line: &str| Outcome::fail(sig.to_string(), format!("{detail}; line = {line:?}; case = {}", serde_json::to_string(case).unwrap_or_default()));
+
+    if let (Some((si, fa, fb, va, vb)), false) = (case.concurrent, chain.is_empty()) {
+        let k = si as usize % chain.len();
+        let nf = chain[k].meta.fields().len();
+        let (fa, fb) = (fa as usize % nf, fb as usize % nf);
+        if fa != fb {
+            let (id, meta) = (chain[k].id.clone(), chain[k].meta);
+            let barrier = std::sync::Barrier::new(2);
+            std::thread::scope(|sc| {
+                for (fi, v) in [(fa, va), (fb, vb)] {
+                    let (d, id, barrier) = (&d, &id, &barrier);
+                    sc.spawn(move || {
+                        let field = meta.fields().iter().nth(fi).unwrap();
+                        let val = tracing_core::field::debug(SlowDbg(v));
+                        barrier.wait();
+                        d.record(id, &span::Record::new(&meta.fields().value_set(&[(&field, Some(&val as &dyn Value))])));
+                    });
+                }
+            });
+            chain[k].vals[fa] = Some(Val::Display(format!("slow{va}")));
+            chain[k].vals[fb] = Some(Val::Display(format!("slow{vb}")));
+            classes.push("two_threads_record_into_one_span".into());
+        }
+    }
 
     for ev in &case.events {
         if let (Some((si, rec)), false) = (&ev.record_first, chain.is_empty()) {
@@ -553,7 +602,7 @@ pub fn fuzz_case(data: &[u8]) -> Case {
         let record_first = if u.ratio(1u8, 3u8).unwrap_or(false) { Some((u.int_in_range(0u8..=2).unwrap_or(0), (0..u.int_in_range(1u8..=2).unwrap_or(1)).map(|_| (u.int_in_range(0u8..=5).unwrap_or(0), fuzz_val(&mut u))).collect())) } else { None };
         events.push(EventSpec { meta, values, parent, record_first });
     }
-    Case { flatten: flags & 1 != 0, current_span: flags & 2 != 0, span_list: flags & 4 != 0, target: flags & 8 != 0, level: flags & 16 != 0, thread: flags & 32 != 0, spans, events }
+    Case { flatten: flags & 1 != 0, current_span: flags & 2 != 0, span_list: flags & 4 != 0, target: flags & 8 != 0, level: flags & 16 != 0, thread: flags & 32 != 0, spans, events, names: flags & 64 != 0, unnamed: flags & 128 != 0, concurrent: None }
 }
 pub fn fuzz_one(data: &[u8]) -> Outcome {
     run_case(&fuzz_case(data))
@@ -576,15 +625,16 @@ impl Property for C14 {
         let span = (0u8..3, proptest::collection::vec(ov(), 6), proptest::collection::vec(proptest::collection::vec((0u8..6, val_strategy()), 1..3), 0..5), 0u8..3).prop_map(|(meta, init, records, before_enter)| SpanSpec { meta, init, records, before_enter });
         let ev = (0u8..3, proptest::collection::vec(ov(), 5), proptest::option::weighted(0.2, 0u8..3), proptest::option::weighted(0.4, (0u8..3, proptest::collection::vec((0u8..6, val_strategy()), 1..3))))
             .prop_map(|(meta, values, parent, record_first)| EventSpec { meta, values, parent, record_first });
-        (any::<bool>(), proptest::bool::weighted(0.8), proptest::bool::weighted(0.8), any::<bool>(), any::<bool>(), proptest::bool::weighted(0.2), proptest::collection::vec(span, 0..4), proptest::collection::vec(ev, 1..5))
-            .prop_map(|(flatten, current_span, span_list, target, level, thread, spans, events)| Case { flatten, current_span, span_list, target, level, thread, spans, events })
+        let extra = (proptest::bool::weighted(0.25), proptest::bool::weighted(0.4), proptest::option::weighted(0.04, (0u8..3, 0u8..6, 0u8..6, -9i64..100, -9i64..100)));
+        (any::<bool>(), proptest::bool::weighted(0.8), proptest::bool::weighted(0.8), any::<bool>(), any::<bool>(), proptest::bool::weighted(0.25), proptest::collection::vec(span, 0..4), proptest::collection::vec(ev, 1..5), extra)
+            .prop_map(|(flatten, current_span, span_list, target, level, thread, spans, events, (names, unnamed, concurrent))| Case { flatten, current_span, span_list, target, level, thread, spans, events, names, unnamed, concurrent })
             .boxed()
     }
     fn run(&self, case: &Case) -> Outcome {
         run_case(case)
     }
     fn rule(&self) -> String {
-        "case = JSON formatter options {flatten_event,current_span,span_list,target,level,thread ids/names} x a chain of 0-3 spans (3 span callsites whose names, targets and field names contain quotes, backslashes, tabs, U+2028, non-ASCII, dots, keywords) with generated initial values and 0-4 later record calls (before / after entering) x 1-4 events, each optionally preceded by another record into a span of the chain (so that records happen between two outputs that show the span) (3 event callsites incl. control characters in a field name and a newline in the target; optional explicit parent). Values: i64/u64/i128/u128 incl. extremes, f64 incl. NaN, +-inf, -0.0, subnormals and round-trip-critical values, bool, strings over a hostile alphabet + arbitrary chars, bytes, errors, Display/Debug wrappers. non-trivial: something needs escaping, some span is recorded into >= 2 more times, and >= 2 spans are nested; distinct by case".into()
+        "case = JSON formatter options {flatten_event,current_span,span_list,target,level,thread ids,thread names} on a named or an unnamed thread x a chain of 0-3 spans (3 span callsites whose names, targets and field names contain quotes, backslashes, tabs, U+2028, non-ASCII, dots, keywords) with generated initial values and 0-4 later record calls (before / after entering) x 1-4 events, each optionally preceded by another record into a span of the chain (so that records happen between two outputs that show the span); in 4 % of the cases two threads record two fields of one span at the same instant with values whose Debug impl is slow (3 event callsites incl. control characters in a field name and a newline in the target; optional explicit parent). Values: i64/u64/i128/u128 incl. extremes, f64 incl. NaN, +-inf, -0.0, subnormals and round-trip-critical values, bool, strings over a hostile alphabet + arbitrary chars, bytes, errors, Display/Debug wrappers. non-trivial: something needs escaping, some span is recorded into >= 2 more times, and >= 2 spans are nested; distinct by case".into()
     }
     fn assumptions(&self) -> Vec<String> {
         vec![
